@@ -2,6 +2,7 @@
 //! one S-expression per case on stdout. The OCaml driver (extracted Coq model) consumes them.
 mod rng;
 mod sx;
+mod c26;
 mod c31;
 mod par;
 mod idents;
@@ -66,6 +67,7 @@ fn main() {
     }
     let a = parse_args();
     match a.cmd.as_str() {
+        "c26" => c26::run(&a),
         "c31" => c31::run(&a),
         "par" => par::run(&a),
         "idents" => idents::run(&a),
